@@ -11,12 +11,14 @@ kind=$(jq -r '.demo_kind // "test"' "$d/meta.json")
 if [ "$kind" != "test" ] || [ ! -f "$d/demo_test.go" ]; then echo "$d: UNSUPPORTED demo kind $kind"; exit 2; fi
 dir=${dir#./}; dir=${dir%/}
 race=""; if jq -r '.demo_cmd // ""' "$d/meta.json" | grep -q -- "-race"; then race="-race"; fi
+arch=""; if jq -r '.demo_cmd // ""' "$d/meta.json" | grep -q "GOARCH=386"; then arch=386; fi
+demo() { if [ -n "$arch" ]; then GOARCH=$arch timeout 240 go test $race -vet=off -count=1 "$@"; else timeout 240 go test $race -vet=off -count=1 "$@"; fi; }
 cd "$tmp/repo"
 cp "$d/demo_test.go" "$dir/zz_demo_test.go"
-if ! timeout 120 go test $race -vet=off -count=1 ./$dir >$tmp/clean.log 2>&1; then echo "$d: demo FAILS on clean tree"; tail -5 $tmp/clean.log; exit 1; fi
+if ! demo ./$dir >$tmp/clean.log 2>&1; then echo "$d: demo FAILS on clean tree"; tail -5 $tmp/clean.log; exit 1; fi
 rm "$dir/zz_demo_test.go"
 if ! patch -p1 -s --no-backup-if-mismatch < "$d/patch.diff" >/dev/null 2>&1; then echo "$d: PATCH DOES NOT APPLY"; exit 2; fi
 if ! timeout 300 go test -vet=off -count=1 ./... >$tmp/suite.log 2>&1; then echo "$d: suite FAILS with patch"; grep -m3 FAIL $tmp/suite.log; exit 1; fi
 cp "$d/demo_test.go" "$dir/zz_demo_test.go"
-if timeout 120 go test $race -vet=off -count=1 ./$dir >$tmp/mut.log 2>&1; then echo "$d: demo PASSES with patch (not a break)"; exit 1; fi
+if demo ./$dir >$tmp/mut.log 2>&1; then echo "$d: demo PASSES with patch (not a break)"; exit 1; fi
 echo "$d: CONFIRMED"
